@@ -616,6 +616,8 @@ def tab_snipkeys(p, res):
         v = b.values[0] if b is not None and b.kind == 'assign' and len(b.values) == 1 else None
         if v is not None and src_of(v) == 'parse_snippets(%s)' % raw:
             res.ok('%s = parse_snippets(%s)' % (name, raw))
+        elif v is None or not (isinstance(v, ast.Call) and isinstance(v.func, ast.Name) and v.func.id == 'parse_snippets'):
+            res.undecided('%s = %s' % (name, src_of(v) if v is not None else '?'), 'expected %s = parse_snippets(%s)' % (name, raw))
         else:
             res.bad(F('TAB-SNIPKEYS', sm, 'snippets.' + name, v or sm.tree, '%s = %s' % (name, src_of(v) if v is not None else '?'), 'each built-in table is parse_snippets of its own raw table only (layering happens in Config, in the documented order)'))
     res.require_floor(400)
